@@ -56,6 +56,21 @@ CHECKS = {
   "Every abstract path with <=3 (thorough 4) nodes over the full language plus every construct nested in filters and subscripts, both modes, x every JSON document with <=3 nodes plus 27 special documents x {float64, json.Number} x {verbose, silent} x variable bindings x {WithTZ, context zone}: Query's items (ordered; multiset where member order is open) and error class must equal the reference interpreter's.",
   "Trusts the reference model (DESIGN.md Appendix A); cases it declines (open points of the documentation) are counted in oracle_declined; programs/documents beyond the bounds are not covered; three recorded defects are classified by emulation.",
   "DESIGN.md §3 C01"),
+ "C05": ("model_checking", "ref-conformance",
+  "bounded exhaustive enumeration of programs x inputs x configurations with invariants checked on every real execution of all five entry points, plus a complete operator/method x type-pair matrix incl. hostile json.Number spellings",
+  "Invariants on every execution (no panic; error nil / wraps ErrExecution / NULL only from Exists-Match-ExistsOrMatch; never ErrInvalid; document and variables equal an independent fresh decode; results finite; returned containers pointer-identical to input sub-values or keyvalue triples) over the full-language space (<=3 nodes), nested constructs and error-family chains x 59 documents, and over every operator/connective/filter/subscript on every ordered pair of 31 operand kinds (13 types + 16 hostile numbers) and every method/accessor on every kind, both modes, verbose/silent, with/without WithTZ.",
+  "Inputs outside the enumerated spaces are not covered; one recorded ErrInvalid defect (datetime vs non-datetime) is a known finding.",
+  "DESIGN.md §3 C05"),
+ "C06": ("model_checking", "ref-conformance",
+  "bounded exhaustive enumeration; oracle = relations between the five real entry points run on identical inputs",
+  "Over the full-language space (<=3 nodes), nested constructs and error-family chains/operators (failing element at every position, soft and hard failures before/after/instead of items) x 59 documents x decodings x WithTZ, verbose and silent: First = Query[0]/nil with the same error; Query ok => Exists = non-empty; no items => Exists not true; strict Exists never hides Query's error; Match = sole boolean / NULL / single-boolean-expected; ExistsOrMatch dispatches on IsPredicate.",
+  "Relations whose outcome depends on the open member order of multi-member objects are skipped where a failure is involved; paths/documents beyond the bounds are not covered.",
+  "DESIGN.md §3 C06"),
+ "C08": ("model_checking", "ref-conformance",
+  "bounded exhaustive enumeration of verbose/silent pairs of real executions of every entry point, plus the reference interpreter for error existence/class and the items found before a failure",
+  "Same space as C06 plus every predicate kind followed by an erroring step and operands that yield items before failing: silent never returns ErrVerbose; successful runs unchanged; suppressible error => no error with the reference's prefix of items (Query/First) or NULL unless established (Exists/Match); non-suppressible errors (unknown variable, tz-requiring cast, datetime template, invalid decimal precision/scale) keep their class; the verbose run still reports the enclosing path's own error after any predicate.",
+  "Cancellation as a non-suppressible error is covered by C20; order-dependent cases (multi-member objects) are declined.",
+  "DESIGN.md §3 C08"),
 }
 
 PENDING = {}
